@@ -1915,6 +1915,8 @@ class Rule(metaclass=LogicalType):
                         f"prefixItems required prefix: [{i}] not provided", item=i
                     )
                 )
+                # the error is collected: there is no value[i] to parse (or to report) for this prefix
+                continue
 
             with context.enter(route=i) as arg_context:
                 try:
